@@ -3,3 +3,4 @@ pub mod common;
 pub mod selftest;
 pub mod hist;
 pub mod sortd;
+pub mod sched;
